@@ -72,8 +72,11 @@ def rule_meta(F, R):
     it = F.find("is_meta_character")
     I = Interp(F)
     M = set()
-    for code in range(0, 128):
-        c = chr(code)
+    probes = [chr(c) for c in range(0, 128)]
+    # non-ASCII characters, in particular ones whose low byte / low 7 bits coincide with an ASCII character
+    for base in (0x80, 0x100, 0x400, 0x3000, 0x1F600):
+        probes += [chr(base + c) for c in range(0, 128) if base + c < 0x110000]
+    for c in probes:
         res = tabulate.single(I.explore(lambda: I.call_item(it, [Char(c)])))
         if res is True:
             M.add(c)
